@@ -126,6 +126,55 @@ const SPECS: &[Spec] = &[
         note: "deltas are abstract (`Δ`); the two wall-clock tests of a delta are parameter functions \
                `younger`/`older : Δ → seconds → Bool`; the four fields of `RrdpUpdatesConfig` are parameters.",
     },
+    Spec {
+        id: "C14",
+        file: "src/server/ca/publishing.rs",
+        ty: "KeyObjectSet",
+        method: "requires_reissuance",
+        lean: "KeyObjectSet.requires_reissuance",
+        sig: "&self,hours:i64->bool",
+        binders: "(now next_update hours : Int)",
+        args: "now next_update hours",
+        ret: "Bool",
+        num: Num::Int,
+        names: &[
+            ("hours", "hours"),
+            ("Time::now()", "now"),
+            ("self.next_update()", "next_update"),
+            ("Duration::hours(hours)", "(hours * 3600)"),
+        ],
+        methods: &[],
+        state_ty: &[],
+        elem_ty: "",
+        enums: &[],
+        note: "`Time` and `Duration` are whole seconds (`Int`); `Time - Duration` and `Time > Time` are the integer operations; \
+               the wall clock `Time::now()` is a parameter; `self.next_update()` is the getter of `self.revision.next_update`.",
+    },
+    Spec {
+        id: "C14",
+        file: "src/server/ca/publishing.rs",
+        ty: "ResourceClassObjects",
+        method: "requires_re_issuance",
+        lean: "ResourceClassObjects.requires_re_issuance",
+        sig: "&self,hours:i64->bool",
+        binders: "{S : Type} (due : S → Int → Bool) (keys : ResourceClassKeyState) (current_set old_set staging_set : S) (hours : Int)",
+        args: "due keys current_set old_set staging_set hours",
+        ret: "Bool",
+        num: Num::Int,
+        names: &[
+            ("hours", "hours"),
+            ("&self.keys", "keys"),
+            ("state.current_set.requires_reissuance(hours)", "due current_set hours"),
+            ("state.old_set.requires_reissuance(hours)", "due old_set hours"),
+            ("state.staging_set.requires_reissuance(hours)", "due staging_set hours"),
+        ],
+        methods: &[],
+        state_ty: &[],
+        elem_ty: "",
+        enums: &[("ResourceClassKeyState", "src/server/ca/publishing.rs")],
+        note: "key object sets are abstract (`S`), `KeyObjectSet::requires_reissuance` is the parameter `due`; the payload of \
+               `ResourceClassKeyState` is flattened into the three set parameters (each arm only reads the sets its variant has).",
+    },
 ];
 
 type R = Result<String, String>;
@@ -770,8 +819,12 @@ fn gen_fn(repo: &Path, spec: &Spec) -> R {
 
 pub fn run(repo: &Path, table: &str) -> String {
     let only = table.strip_prefix("pure_fns:");
-    let mut files: Vec<&str> = SPECS.iter().map(|s| s.file).collect();
-    files.dedup();
+    let mut files: Vec<&str> = Vec::new();
+    for s in SPECS {
+        if !files.contains(&s.file) {
+            files.push(s.file);
+        }
+    }
     let mut out = lean_header(&files.join(", "));
     out.push_str("/-\nBodies of pure decision functions, translated by /verif/translate/src/pure_fns.rs.\n");
     out.push_str("Integers: usize/u32/u64 ↦ Nat, i64 ↦ Int; overflow and wrap-around are outside the translation\n");
